@@ -550,6 +550,13 @@ class P(Prop):
             if c is not None:
                 out.append(c)
                 made += 1
+        # ---- random: the list form of track.operate(FILTER, [names], kernel[, [names]])
+        made = 0
+        while made < (400 if quick else 5000):
+            c = self.rand_opl(rng)
+            if c is not None:
+                out.append(c)
+                made += 1
         # ---- random: x, y, z and features through filter_seq, every form of `dim`
         nseq = 900 if quick else 12000
         made = 0
@@ -679,9 +686,53 @@ class P(Prop):
         af_out = rng.choice(["b", "b", af_in if af_in in feats else "b", "c", "a"])
         if featk and af_out == k["name"]:
             af_out = "b"
+        if af_in in feats and rng.random() < 0.2:
+            af_out = None        # third argument omitted: output into the input feature
         c = {"kind": "op", "x": sigs["x"], "y": sigs["y"], "z": sigs["z"], "feats": feats, "in": af_in, "out": af_out, "k": k, "sc": sc}
         w = self.op_weights(c)
         if not domain_ok(w, dict(sigs, **feats)[af_in]):
+            return None
+        return c
+
+    def rand_opl(self, rng):
+        """track.operate(FILTER, [names], kernel[, [names]]): the list form (one call of Filter.execute per pair, the kernel
+        being the same object at every turn); 'judge' tells whether the property says what the final track is (in place on
+        distinct features, or distinct fresh output names) — the other forms are kept for correspondence only"""
+        k = self.rand_kernel(rng)
+        sc = self.pick_scalar(rng, k)
+        N = len(shape_weights(k))
+        n = max(1, N) + rng.choice([0, 1, 2, rng.randrange(0, 8)])
+        if N >= 3 and rng.random() < 0.15:
+            n = rng.randrange(1, N)
+            if "fb" in k and rng.random() < 0.4:
+                k["fb"] = True
+        sigs = {nm: self.rand_signal(rng, n, nan=False, floats=(sc == "f")) for nm in ("x", "y", "z")}
+        feats = {nm: self.rand_signal(rng, n, floats=(sc == "f")) for nm in ("a", "c", "d")}
+        form = rng.choice(["omitted", "omitted", "same", "fresh", "fresh", "overlap", "mismatch", "coord", "empty", "dup"])
+        judge = form in ("omitted", "same", "fresh")
+        fnames = ["a", "c", "d"]
+        if form in ("omitted", "same"):
+            ins = rng.sample(fnames, rng.randrange(1, 4))
+            outs = None if form == "omitted" else list(ins)
+        elif form == "fresh":
+            ins = rng.sample(["x", "y", "z"] + fnames, rng.randrange(1, 4))
+            outs = ["o%d" % i for i in range(len(ins))]
+        elif form == "overlap":
+            ins = rng.choice([["a", "c"], ["a", "c", "d"], ["a", "a"], ["x", "a"]])
+            outs = {2: ["c", "d"], 3: ["c", "d", "a"]}[len(ins)] if ins[0] != ins[-1] or len(ins) == 3 else ["a", "o0"]
+        elif form == "mismatch":
+            ins = rng.sample(fnames, rng.randrange(1, 4))
+            outs = ["o%d" % i for i in range(len(ins) + rng.choice([-1, 1]))]
+        elif form == "coord":
+            ins, outs = rng.choice([["x"], ["a", "y"], ["z", "a"]]), None
+        elif form == "empty":
+            ins, outs = [], rng.choice([None, []])
+        else:
+            ins = rng.choice([["a", "a"], ["c", "a", "c"]])
+            outs = None
+        c = {"kind": "opl", "x": sigs["x"], "y": sigs["y"], "z": sigs["z"], "feats": feats, "ins": ins, "outs": outs,
+             "k": k, "sc": sc, "form": form, "judge": judge}
+        if judge and not self._in_domain(c):
             return None
         return c
 
@@ -751,6 +802,10 @@ class P(Prop):
             t["filterBoundary"] = k["fb"]
         if "how" in case:
             t["dim"] = case["how"]
+        if kind == "opl":
+            t["form"] = case["form"]
+        if kind == "op":
+            t["output"] = "omitted" if case["out"] is None else ("input" if case["out"] == case["in"] else "other")
         if k["t"] == "user":
             t["user_types"] = "".join(sorted({e[0] for e in k["tbl"]}))
             t["edge_zero_int"] = bool(k["tbl"]) and k["tbl"][-1][1] == 0 and k["tbl"][-1][0] in ("i", "I", "b") or int(k["s"]) >= len(k["tbl"])
@@ -778,6 +833,8 @@ class P(Prop):
         if kind == "op":
             w = self.op_weights(case)
             return len(w) >= 3
+        if kind == "opl":
+            return bool(case["judge"]) and len(shape_weights(case["k"])) >= 3
         if len(self.kweights(case)) < 3:
             return False
         sigs = [case["sig"]] if kind in ("feat", "zerow", "short") else [case["x"], case["y"], case["z"]]
@@ -925,10 +982,25 @@ class P(Prop):
             for nm, v in case["feats"].items():
                 t.createAnalyticalFeature(nm, [num(a) for a in v])
             kern = self.mk_kernel(case["k"])
-            ret = t.operate(self.Operator.FILTER, case["in"], kern, case["out"])
+            if case["out"] is None:
+                ret = t.operate(self.Operator.FILTER, case["in"], kern)
+            else:
+                ret = t.operate(self.Operator.FILTER, case["in"], kern, case["out"])
             return {"ret": [canon(a) for a in ret], "sigs": self.read_track(t),
                     "kafter": [canon(a) for a in kern] if isinstance(kern, list) else None,
                     "window": self.window_of(case["k"]), "state": self.globals_now()}
+        if kind == "opl":
+            t = self.mk_track(case["x"], case["y"], case["z"])
+            for nm, v in case["feats"].items():
+                t.createAnalyticalFeature(nm, [num(a) for a in v])
+            kern = self.mk_kernel(case["k"])
+            if case["outs"] is None:
+                ret = t.operate(self.Operator.FILTER, list(case["ins"]), kern)
+            else:
+                ret = t.operate(self.Operator.FILTER, list(case["ins"]), kern, list(case["outs"]))
+            return {"ret": None if ret is None else "something", "sigs": self.read_track(t),
+                    "kafter": [canon(a) for a in kern] if isinstance(kern, list) else None,
+                    "window": self.window_of(case["k"])}
         if kind in ("seq", "smooth", "badk"):
             if kind == "badk" and "dims" not in case:
                 return {"window": self.window_of(case["k"])}
@@ -1044,7 +1116,17 @@ class P(Prop):
             return ls
         if kind == "op":
             k = case["k"]
-            ls = ["C15.op %s %s %s %s %s" % (sc, case["in"], case["out"], self.track_tok(sc, case), self.kspec(sc, k))]
+            if case["out"] is None:
+                ls = ["C15.opa %s one %s - %s %s" % (sc, case["in"], self.track_tok(sc, case), self.kspec(sc, k))]
+            else:
+                ls = ["C15.op %s %s %s %s %s" % (sc, case["in"], case["out"], self.track_tok(sc, case), self.kspec(sc, k))]
+            if self.needs_sw(k):
+                ls.append("C15.sw %s %s" % (sc, self.kspec(sc, k)))
+            return ls
+        if kind == "opl":
+            k = case["k"]
+            ls = ["C15.opa %s many %s %s %s %s" % (sc, tok_list(case["ins"]), "-" if case["outs"] is None else tok_list(case["outs"]),
+                                                   self.track_tok(sc, case), self.kspec(sc, k))]
             if self.needs_sw(k):
                 ls.append("C15.sw %s %s" % (sc, self.kspec(sc, k)))
             return ls
@@ -1133,6 +1215,14 @@ class P(Prop):
             sigs = [self.vals(sc, s) for s in untok(r[4], ";")]
             return {"ret": self.vals(sc, r[2]), "sigs": dict(zip(names, sigs)), "kafter": None if r[1] == "none" else self.vals(sc, r[1]),
                     "window": self.decode_window(case, case["k"], replies), "state": self.decode_globals(self.PRISTINE_TOKEN)}
+        if kind == "opl":
+            r = replies[0].split(" ")
+            if r[0] != "ok":
+                return {"err": r[0]}
+            names = untok(r[3])
+            sigs = [self.vals(sc, s) for s in untok(r[4], ";")]
+            return {"ret": None if r[2] == "none" else "something", "sigs": dict(zip(names, sigs)),
+                    "kafter": None if r[1] == "none" else self.vals(sc, r[1]), "window": self.decode_window(case, case["k"], replies)}
         if kind in ("seq", "smooth", "badk"):
             k = case["k"] if kind != "smooth" else {"t": "gaussian", "p": case["w"], "fb": None}
             res = self.decode_call(sc, replies[0], self.decode_window(case, k, replies))
@@ -1160,7 +1250,8 @@ class P(Prop):
     PRISTINE_TOKEN = "FILTER_X=x|FILTER_Y=y|FILTER_Z=z|FILTER_XY=x.y|FILTER_XZ=x.z|FILTER_YZ=y.z|FILTER_XYZ=x.y.z;0"
     ERR_MAP = {"err:even-kernel": ("err:NameError", "err:KernelError"), "err:zerodiv": ("err:zerodiv",),
                "err:index": ("err:index",), "err:support": ("err:NameError", "err:KernelError"),
-               "err:feature": ("err:AnalyticalFeatureError",), "err:empty-track": ("err:AnalyticalFeatureError",)}
+               "err:feature": ("err:AnalyticalFeatureError",), "err:empty-track": ("err:AnalyticalFeatureError",),
+               "err:operands": ("err:NameError", "err:OperatorError")}
 
     def compare_one(self, impl_out, model_out):
         if "err" in impl_out or "err" in model_out:
@@ -1227,8 +1318,9 @@ class P(Prop):
 
     def spec(self, case, out):
         kind = case["kind"]
-        if kind in ("zeronorm", "badk"):
-            return None  # outside the domain of the property (a window without valid weight / a refused call)
+        if kind in ("zeronorm", "badk") or (kind == "opl" and not case["judge"]):
+            return None  # outside the domain of the property (a window without valid weight / a refused call / a form of
+            #              the list arguments whose final track the property does not describe)
         if kind == "session":
             if "steps" not in out:
                 return "the session raised %s (%s)" % (out.get("err"), out.get("detail", ""))
@@ -1254,11 +1346,28 @@ class P(Prop):
             if out["input_after"] != [canon(num(a)) for a in case["sig"]]:
                 return "the input feature was modified: %r" % out["input_after"]
             return check_signal(w, case["sig"], fb, out["out"], "feature", skip_undefined=(kind == "zerow"))
+        if kind == "opl":
+            w, fb, bad = self.weights_for(case["k"], out, case)
+            if bad:
+                return bad
+            allsig = dict({"x": case["x"], "y": case["y"], "z": case["z"]}, **case["feats"])
+            outs = case["outs"] if case["outs"] is not None else case["ins"]
+            src = dict(zip(outs, case["ins"]))
+            for nm in list(allsig) + [o for o in outs if o not in allsig]:
+                got = out["sigs"].get(nm)
+                if nm in src:
+                    bad = check_signal(w, allsig[src[nm]], fb, got, "feature %s (filtered %s)" % (nm, src[nm]))
+                    if bad:
+                        return bad
+                elif got != [canon(num(a)) for a in allsig[nm]]:
+                    return "%s was not to be filtered but changed: %r -> %r" % (nm, allsig[nm], got)
+            return None
         if kind == "op":
             w, fb, bad = self.weights_for(case["k"], out, case)
             if bad:
                 return bad
             allsig = dict({"x": case["x"], "y": case["y"], "z": case["z"]}, **case["feats"])
+            case = dict(case, out=case["out"] if case["out"] is not None else case["in"])
             bad = check_signal(w, allsig[case["in"]], fb, out["sigs"].get(case["out"]), "feature %s" % case["out"])
             if bad:
                 return bad
@@ -1283,6 +1392,8 @@ class P(Prop):
         allsig = dict({"x": case["x"], "y": case["y"], "z": case["z"]}, **case.get("feats", {}))
         if kind == "op":
             return [allsig[case["in"]]]
+        if kind == "opl":
+            return [allsig[d] for d in case["ins"] if d in allsig]
         dims = ["x", "y", "z"] if kind == "smooth" else case.get("dims", ["x", "y", "z"])
         return [allsig[d] for d in dims if d in allsig]
 
@@ -1362,7 +1473,7 @@ class P(Prop):
                         c["api"] = st["api"]
                     yield dict(case, steps=steps[:i] + [c] + steps[i + 1:])
             return
-        if kind in ("op", "badk"):
+        if kind in ("op", "opl", "badk"):
             return
         k = case.get("k", {"t": "gaussian", "p": case.get("w")})
         if k["t"] == "feat":
@@ -1418,6 +1529,10 @@ class P(Prop):
         if kind == "op":
             allsig = dict({"x": case["x"], "y": case["y"], "z": case["z"]}, **case["feats"])
             return domain_ok(self.op_weights(case), allsig[case["in"]])
+        if kind == "opl":
+            allsig = dict({"x": case["x"], "y": case["y"], "z": case["z"]}, **case["feats"])
+            w = shape_weights(case["k"])
+            return (not case["judge"]) or (sum(w) > 0 and all(domain_ok(w, allsig[d]) for d in case["ins"]))
         k = case.get("k", {"t": "gaussian", "p": case.get("w")}) if kind != "smooth" else {"t": "gaussian", "p": case["w"]}
         if k["t"] not in ("list", "int", "dirac", "feat") and support_of(k) < 1:
             return False
@@ -1441,7 +1556,7 @@ class P(Prop):
                 for p in self.WIDTHS:
                     yield dict(case, k=dict(case["k"], p=p))
             return
-        if kind in ("session", "op", "badk"):
+        if kind in ("session", "op", "opl", "badk"):
             return
         for _ in range(20):
             c = dict(case)
